@@ -24,11 +24,12 @@ import (
 )
 
 type Op struct {
-	Op string `json:"op"` // sub | unsub | deliver
+	Op string `json:"op"` // sub | unsub | deliver | other operations (other.go): close | bcast | health | handler
 	S  string `json:"s,omitempty"`
 	T  uint8  `json:"t,omitempty"`
-	C  int    `json:"c,omitempty"` // channel number (sub)
-	K  int    `json:"k,omitempty"` // index of the Sub whose returned id is cancelled (unsub)
+	C  int    `json:"c,omitempty"`  // channel number (sub)
+	K  int    `json:"k,omitempty"`  // index of the Sub whose returned id is cancelled (unsub)
+	To []int  `json:"to,omitempty"` // bcast / health: the addressees (peer numbers, see other.go)
 }
 
 type ST struct {
@@ -128,8 +129,7 @@ func waitQuiet(base int) {
 func runOps(c Case) (Obs, bool) {
 	uni := universe(c)
 	remote := p2pfakes.PeerID(1)
-	h := p2pfakes.NewHost(p2pfakes.PeerID(0))
-	cm := p2p.NewCommunication(h, "p2p/sygma")
+	cm := p2p.NewCommunication(newOutHost(), "p2p/sygma")
 	chans := map[int]chan *comm.WrappedMessage{}
 	num := map[chan *comm.WrappedMessage]int{}
 	var order []int
@@ -208,7 +208,10 @@ func runOps(c Case) (Obs, bool) {
 			sort.Ints(got)
 			oo.Got = got
 		default:
-			panic("unknown op " + o.Op)
+			if !isOther(o.Op) {
+				panic("unknown op " + o.Op)
+			}
+			doOther(cm, o.Op, o.S, o.T, o.To)
 		}
 		oo.View = view()
 		obs.Ops = append(obs.Ops, oo)
@@ -321,6 +324,55 @@ var families = [][]string{
 	{"session with space", "s\"q", "0-0-0", "0"},
 }
 
+// genOpsX: an operation list with the other operations of the communication layer among the table
+// operations and deliveries (about a quarter of the operations; always at least one after a subscription
+// and before a delivery or lookup of the same session)
+func genOpsX(r *vgen.Rng, maxOps int) Case {
+	c := genOps(r, maxOps)
+	var sess []string
+	var types []uint8
+	seenS, seenT := map[string]bool{}, map[uint8]bool{}
+	for _, o := range c.Ops {
+		if o.Op == "sub" || o.Op == "deliver" {
+			if !seenS[o.S] {
+				seenS[o.S] = true
+				sess = append(sess, o.S)
+			}
+			if !seenT[o.T] {
+				seenT[o.T] = true
+				types = append(types, o.T)
+			}
+		}
+	}
+	other := func() Op {
+		op, s, t, to := genOther(r, sess, types)
+		return Op{Op: op, S: s, T: t, To: to}
+	}
+	var out []Op
+	lastSub := ""
+	placed := false
+	for _, o := range c.Ops {
+		out = append(out, o)
+		if o.Op == "sub" {
+			lastSub = o.S
+		}
+		if r.Chance(1, 3) {
+			out = append(out, other())
+			placed = true
+		}
+		if o.Op == "sub" && r.Chance(1, 4) {
+			// the session that was just subscribed to is closed, then a message for it arrives
+			out = append(out, Op{Op: "close", S: o.S}, Op{Op: "deliver", S: o.S, T: o.T})
+			placed = true
+		}
+	}
+	if !placed {
+		out = append(out, Op{Op: "close", S: lastSub})
+	}
+	c.Ops = out
+	return c
+}
+
 func genOps(r *vgen.Rng, maxOps int) Case {
 	fam := vgen.Pick(r, families)
 	nsess := r.Range(1, len(fam))
@@ -374,9 +426,11 @@ func gen(r *vgen.Rng, tier string) []Case {
 	var out []Case
 	nlists, maxOps, nraw, nfan, nconc, nrace := 260, 40, 150, 240, 40, 6
 	nfani, nslow, idleMs := 150, 4, 5000
+	nlistsX, nfaniX := 90, 45
 	if tier == "thorough" {
 		nlists, maxOps, nraw, nfan, nconc, nrace = 4000, 60, 3000, 6000, 600, 60
 		nfani, nslow, idleMs = 4000, 8, 15000
+		nlistsX, nfaniX = 2000, 1500
 	}
 	// Unwrap of built ids: every family member x boundary types x boundary unique components
 	for _, fam := range families {
@@ -405,6 +459,16 @@ func gen(r *vgen.Rng, tier string) []Case {
 			m = 8
 		}
 		out = append(out, genOps(r, m))
+	}
+	for i := 0; i < nlistsX; i++ {
+		m := maxOps / 2
+		if i%4 == 0 {
+			m = 8
+		}
+		out = append(out, genOpsX(r, m))
+	}
+	for i := 0; i < nfaniX; i++ {
+		out = append(out, genFanIX(r))
 	}
 	for i := 0; i < nfan; i++ {
 		out = append(out, genFan(r))
@@ -467,6 +531,7 @@ func coq(c Case, o Obs) string {
 	uni := vgen.ListOf(o.Universe, func(p ST) string { return vgen.Pair(vgen.Str(p.S), vgen.N(uint64(p.T))) })
 	ops := make([]string, len(c.Ops))
 	obs := make([]string, len(c.Ops))
+	others := hasOther(c)
 	for i, op := range c.Ops {
 		oo := o.Ops[i]
 		switch op.Op {
@@ -474,12 +539,35 @@ func coq(c Case, o Obs) string {
 			ops[i] = "Sub " + vgen.Str(op.S) + " " + vgen.N(uint64(op.T)) + " " + vgen.N(oo.U) + " " + vgen.N(uint64(op.C))
 		case "unsub":
 			ops[i] = "Unsub " + vgen.Nat(op.K)
-		default:
+		case "deliver":
 			ops[i] = "Deliver " + vgen.Str(op.S) + " " + vgen.N(uint64(op.T))
+		default:
+			ops[i] = "XOther (" + otherCoq(op.Op, op.S, op.T, op.To) + ")"
+		}
+		if others && !isOther(op.Op) {
+			ops[i] = "XOp (" + ops[i] + ")"
 		}
 		obs[i] = "mk_obs " + vgen.Str(oo.ID) + " " + vgen.ListOf(oo.View, ints) + " " + ints(oo.Got)
 	}
+	if others {
+		return "OpsX " + uni + " " + vgen.List(ops) + " " + vgen.List(obs)
+	}
 	return "Ops " + uni + " " + vgen.List(ops) + " " + vgen.List(obs)
+}
+
+// hasOther: the case contains one of the other operations of the communication layer (other.go)
+func hasOther(c Case) bool {
+	for _, o := range c.Ops {
+		if isOther(o.Op) {
+			return true
+		}
+	}
+	for _, e := range c.Script {
+		if isOther(e.E) {
+			return true
+		}
+	}
+	return false
 }
 
 func hyphen(c Case) bool {
@@ -518,10 +606,16 @@ func main() {
 				if hasIdle(c) {
 					return "slow"
 				}
+				if hasOther(c) {
+					return "fani-other-" + c.Mode
+				}
 				return "fani-" + c.Mode
 			}
 			if c.Kind == "conc" || c.Kind == "race" {
 				return c.Kind
+			}
+			if c.Kind == "ops" && hasOther(c) {
+				return "ops-other"
 			}
 			if hyphen(c) {
 				return c.Kind + "-hyphen"
@@ -541,6 +635,18 @@ func main() {
 			case "conc", "race":
 				return concNonTrivial(c)
 			}
+			if hasOther(c) {
+				// an other operation while somebody is subscribed
+				nsub := 0
+				for _, op := range c.Ops {
+					if op.Op == "sub" {
+						nsub++
+					} else if isOther(op.Op) && nsub > 0 {
+						return true
+					}
+				}
+				return false
+			}
 			nsub, other := 0, 0
 			for _, op := range c.Ops {
 				if op.Op == "sub" {
@@ -551,6 +657,6 @@ func main() {
 			}
 			return nsub >= 2 && other >= 1
 		},
-		Rule: "Unwrap on ids built for every session-family member x boundary types x boundary unique components, Unwrap on random/malformed strings, and random operation lists (sub/unsub/deliver, 1..40 ops quick, 1..60 thorough) over 1..5 sessions of a family of mutually confusable ids (prefixes, trailing/leading/double hyphens, empty, hex digests, production-style message ids) and 1..3 declared message types; fan cases: a table of 1..9 subscriptions / cancellations (several subscribers per pair, channels holding several subscriptions), then 1..3 inbound streams of 1..6 messages each (different and equal sessions / types / payloads) handed to ProcessMessagesFromStream back to back, one per Read or in random chunks, with unbuffered / capacity-1 / large subscriber channels read late (nobody reads before everything was decoded), interleaved or promptly in a random order, a third of them under GOMAXPROCS(1); fani cases: scripts of 5..16 table operations and messages over 1..2 hot (session, type) pairs and others on 1..3 long-lived streams (messages mostly on the same stream and of the same pair, a quarter joined into one Read; subscriptions of new / already used channels and cancellations of live / already cancelled subscriptions strictly between the messages), receivers late / mixed / prompt, unbuffered / capacity-1 / large channels, a quarter under GOMAXPROCS(1), 4 fixed corpus scripts; slow cases: 1..3 subscribers of a pair (+ possibly one of another pair, + a late subscriber), 2..6 messages pending on unbuffered / capacity-1 channels, 5 s (thorough 15 s) of nobody reading or feeding, then 0..3 more messages / a subscription / a cancellation, then the readers catch up - each in a child process, all started together; conc / race cases: 8..16 goroutines (race: 8..12) x 2..5 rounds x 2..5 operations (subscribe own channel, cancel own subscription - possibly cancelled before -, GetSubscribers, deliver one message through ProcessMessagesFromStream) on one Libp2pCommunication held by value in interfaces, over a session shared by all, one session created per round, sessions of the thread's own and of other threads, 1..3 declared message types of a family of hyphenated ids; the goroutines enter every round together (spinning barrier) and start it with a common action drawn per round: all subscribe to the pair created in this round, all cancel what they subscribed at the previous barrier, a mix of subscribe / cancel / lookup of one pair, or nothing in common; a fifth of the cases under GOMAXPROCS 2 / 4 / 8; each case in a child process, race cases in a child built with -race; 4 fixed corpus cases (subscribe-lookup-cancel storms on one pair; subscribe at one barrier, cancel at the next); distinct = distinct input JSON; non-trivial = every built-id Unwrap, malformed ids with at least two separators, operation lists with at least two subscriptions and one cancellation or delivery, fan cases with a subscription and at least two messages, interleaved cases with a table operation strictly between two messages of one stream, concurrent cases with at least two threads and eight operations",
+		Rule: "Unwrap on ids built for every session-family member x boundary types x boundary unique components, Unwrap on random/malformed strings, and random operation lists (sub/unsub/deliver, 1..40 ops quick, 1..60 thorough) over 1..5 sessions of a family of mutually confusable ids (prefixes, trailing/leading/double hyphens, empty, hex digests, production-style message ids) and 1..3 declared message types; fan cases: a table of 1..9 subscriptions / cancellations (several subscribers per pair, channels holding several subscriptions), then 1..3 inbound streams of 1..6 messages each (different and equal sessions / types / payloads) handed to ProcessMessagesFromStream back to back, one per Read or in random chunks, with unbuffered / capacity-1 / large subscriber channels read late (nobody reads before everything was decoded), interleaved or promptly in a random order, a third of them under GOMAXPROCS(1); fani cases: scripts of 5..16 table operations and messages over 1..2 hot (session, type) pairs and others on 1..3 long-lived streams (messages mostly on the same stream and of the same pair, a quarter joined into one Read; subscriptions of new / already used channels and cancellations of live / already cancelled subscriptions strictly between the messages), receivers late / mixed / prompt, unbuffered / capacity-1 / large channels, a quarter under GOMAXPROCS(1), 4 fixed corpus scripts; slow cases: 1..3 subscribers of a pair (+ possibly one of another pair, + a late subscriber), 2..6 messages pending on unbuffered / capacity-1 channels, 5 s (thorough 15 s) of nobody reading or feeding, then 0..3 more messages / a subscription / a cancellation, then the readers catch up - each in a child process, all started together; conc / race cases: 8..16 goroutines (race: 8..12) x 2..5 rounds x 2..5 operations (subscribe own channel, cancel own subscription - possibly cancelled before -, GetSubscribers, deliver one message through ProcessMessagesFromStream) on one Libp2pCommunication held by value in interfaces, over a session shared by all, one session created per round, sessions of the thread's own and of other threads, 1..3 declared message types of a family of hyphenated ids; the goroutines enter every round together (spinning barrier) and start it with a common action drawn per round: all subscribe to the pair created in this round, all cancel what they subscribed at the previous barrier, a mix of subscribe / cancel / lookup of one pair, or nothing in common; a fifth of the cases under GOMAXPROCS 2 / 4 / 8; each case in a child process, race cases in a child built with -race; 4 fixed corpus cases (subscribe-lookup-cancel storms on one pair; subscribe at one barrier, cancel at the next); ops-other / fani-other cases: the same operation lists and interleaved scripts with the other operations of the communication layer between the table operations, deliveries and stream messages - CloseSession (of the sessions in use, half of them right after a subscription to that session and before a message for it, and of confusable sessions), Broadcast over the fake host (reachable peers, a peer refusing the dial, a peer without address, itself; the types in use, TssFailMsg, CoordinatorLeaveMsg, Unknown), comm.ExecuteCommHealthCheck, StreamHandlerFunc on streams without a complete message - the subscriber lists of the whole universe are looked up after each of them; distinct = distinct input JSON; non-trivial = every built-id Unwrap, malformed ids with at least two separators, operation lists with at least two subscriptions and one cancellation or delivery, fan cases with a subscription and at least two messages, interleaved cases with a table operation strictly between two messages of one stream, concurrent cases with at least two threads and eight operations",
 	})
 }
